@@ -219,7 +219,20 @@ func (n *node) opsUpTo(raftIdx uint64) int {
 	return c
 }
 
-func (n *node) appliedOps() int { return n.opsUpTo(n.cc.VerifRaft().AppliedIndex()) }
+// settle waits until Raft has recorded as applied everything in its log: LogPin returns when the FSM
+// has answered, which can be a moment before Raft's main loop advances AppliedIndex.
+func (n *node) settle() {
+	r := n.cc.VerifRaft()
+	deadline := time.Now().Add(5 * time.Second)
+	for r.AppliedIndex() < r.LastIndex() && time.Now().Before(deadline) {
+		time.Sleep(200 * time.Microsecond)
+	}
+}
+
+func (n *node) appliedOps() int {
+	n.settle()
+	return n.opsUpTo(n.cc.VerifRaft().AppliedIndex())
+}
 
 func (n *node) submit(o op) error {
 	ctx, cancel := context.WithTimeout(context.Background(), 60*time.Second)
@@ -243,10 +256,9 @@ func (n *node) ackResult(err error) (string, []string, error) {
 	} else if n.view() == "E" {
 		return "err", l, nil
 	}
-	l, got := n.tr.take(1)
-	if !got {
-		return "", nil, infra("tracker call not received")
-	}
+	// acknowledged, the node serves a state, and still no tracker call after 10 more seconds:
+	// that is an observation (the change was not handed over), not an infrastructure failure
+	l, _ := n.tr.take(1)
 	return "ok", l, nil
 }
 
